@@ -11,7 +11,8 @@ import math
 
 PROPS = ('C10',)
 SLACK = 1e-3
-RACE_PROBES = ('cancel_lost_race', 'equal_rounded_deadline', 'deadline_in_past', 'cancel_twice', 'cancel_after_run')
+RACE_PROBES = ('cancel_lost_race', 'equal_rounded_deadline', 'deadline_in_past', 'cancel_twice', 'cancel_after_run',
+               'deadline_hair_off_grid')
 
 
 def generate(rng, tier='quick', **kw):
@@ -48,6 +49,16 @@ def generate(rng, tier='quick', **kw):
         delta = 0.0
       elif k < 0.28:
         delta = rng.choice([3700.0, 5000.0, 9000.0])      # hours ahead (virtual time is free)
+      elif k < 0.34:
+        # an absolute deadline a hair above (or below) a grid point: it must
+        # still be rounded *up* to the next one
+        g = (math.floor(t / grid) + rng.choice([1, 1, 2, 5])) * grid
+        T = g + grid * rng.choice([3e-7, 4.5e-7, 1e-6, 1e-5, -3e-7])
+        ops.append({'t': round(t, 7), 'drv': drv, 'y': y, 'op': 'sched', 'id': next_id, 'delta': T - t, 'abs': T})
+        deadlines.append(_round_up(T, res) if res else T)
+        ids.append(next_id)
+        next_id += 1
+        continue
       elif k < 0.5 and deadlines:
         delta = rng.choice(deadlines) - t     # equal to a pending deadline
       else:
@@ -116,7 +127,9 @@ def run(scn):
       for _ in range(op['y']):
         gevent.sleep(0)
       if op['op'] == 'sched':
-        T = CLOCK.now + op['delta']
+        T = EPOCH + op['abs'] if 'abs' in op else CLOCK.now + op['delta']
+        if 'abs' in op:
+          REC.probe('deadline_hair_off_grid')
         seq[0] += 1
         ent = {'T': T, 'at': CLOCK.now, 'seq': seq[0], 'runs': [],
                'cancelled_at': None, 'pending_before': len([1 for e in sched.values() if not e['runs']])}
@@ -167,7 +180,9 @@ def run(scn):
     runs = e['runs']
     if len(runs) > 1:
       REC.violation('C10', 'ran_twice', 'action %d ran %d times' % (i, len(runs)))
-    if runs and runs[0] < T - 1e-6:
+    # (float error of the implementation's rounding and of the loop's timer
+    # arithmetic is below 1e-9 s at the epoch used here)
+    if runs and runs[0] < T - 1e-9:
       REC.violation('C10', 'early', 'action %d (T=%.6f) ran at %.6f, %.6f s early' % (
         i, T - EPOCH, runs[0] - EPOCH, T - runs[0]))
     ca = e['cancelled_at']
